@@ -10,8 +10,16 @@
 (* every name carries its attributes with it:                              *)
 (*     name   the identifier as written in the document                    *)
 (*     title  the title-cased identifier (first letter upper-cased)        *)
-(*     key    the identifier lower-cased (identity of a struct / field     *)
-(*            whatever capitalisation convention the generator uses)       *)
+(*     key    the identity under which a struct / field is looked up in    *)
+(*            the output: the identifier lower-cased (so that a generator  *)
+(*            with another capitalisation convention is still matched),    *)
+(*            EXCEPT when the same map of the document holds another name  *)
+(*            with the same lower-cased form (podIP / podIp, NodeSpec /    *)
+(*            Nodespec, foo / Foo): then the title-cased identifier.       *)
+(* Distinct identifiers are distinct names of the premise whatever their   *)
+(* capitalisation, so keys need not be distinct: foo and Foo both have the *)
+(* key "Foo" and the contract asks for two structs with that key (a        *)
+(* matching of objects to structs, see Meets).                             *)
 (* The attributes are computed by the harness with the standard library    *)
 (* (never by generator code) and, for the names of the enumerated          *)
 (* universe, tabulated in CodegenMC!NameTable and checked at harness start.*)
@@ -23,8 +31,9 @@
 (* An OBSERVED OUTPUT is what go/parser extracts from typedef_output.go:   *)
 (* the sequence (file order) of struct declarations                        *)
 (*   [name, key, fields : Seq([name, key, tag, type])]                     *)
-(* with tag = the name part of the json struct tag and type = the field's  *)
-(* type expression as text.                                                *)
+(* with tag = the name part of the json struct tag, type = the field's     *)
+(* type expression as text, key = the observed name under the key rule of  *)
+(* the document's map it belongs to.                                       *)
 (***************************************************************************)
 EXTENDS Integers, Sequences, FiniteSets, TLC
 
@@ -40,9 +49,11 @@ GoKeywords == {"break", "default", "func", "interface", "select", "case", "defer
 
 Range(s) == {s[i] : i \in DOMAIN s}
 
+\* injections from A to B (bijections when the sets have the same size)
+Inj(A, B) == {f \in [A -> B] : \A a1, a2 \in A : f[a1] = f[a2] => a1 = a2}
+
 \* ------------------------------------------------------------------ premise
 Distinct(s, f(_)) == \A i, j \in DOMAIN s : f(s[i]) = f(s[j]) => i = j
-KeyOf(x) == x.key
 NameOf(x) == x.name
 
 WFProp(p) ==
@@ -51,19 +62,19 @@ WFProp(p) ==
     /\ (p.tid = "ref") <=> (p.ref # "")
     /\ p.ref \notin GoKeywords
 
-\* "object and property names are valid identifiers"; additionally distinct structs / fields
-\* stay distinct after title-casing (key is injective) - otherwise "exactly one struct per
-\* object" would not be decidable from the output
+\* "object and property names are valid identifiers": identifiers, pairwise distinct as the
+\* keys of a YAML mapping are - nothing else (names may differ in capitalisation only)
 WF(doc) ==
-    /\ Distinct(doc, KeyOf) /\ Distinct(doc, NameOf)
+    /\ Distinct(doc, NameOf)
     /\ \A i \in DOMAIN doc :
           /\ doc[i].name \notin GoKeywords /\ doc[i].name # ""
-          /\ Distinct(doc[i].props, KeyOf) /\ Distinct(doc[i].props, NameOf)
+          /\ Distinct(doc[i].props, NameOf)
           /\ \A k \in DOMAIN doc[i].props : WFProp(doc[i].props[k])
 
 \* ------------------------------------------------------------------ the contract
 \* README: "you can specify objects to ignore" - the second argument names one object
 Ignored(o, args) == args.form = "with_ignore" /\ o.name = args.ign
+Live(doc, args) == {i \in DOMAIN doc : ~Ignored(doc[i], args)}
 
 \* statement: "typed int64/float64 for integer/float, the referenced object's name for
 \* references and the type ID otherwise".  "The referenced object's name" is satisfied by the
@@ -79,88 +90,121 @@ GoTypes(p) ==
 \* left open there (three-valued expectation: "maybe").  Not panicking is demanded regardless.
 TypeFree(p) == GoTypes(p) \subseteq GoKeywords
 Satisfiable(doc, args) ==
-    \A i \in DOMAIN doc : Ignored(doc[i], args) \/ \A k \in DOMAIN doc[i].props : ~TypeFree(doc[i].props[k])
+    \A i \in Live(doc, args) : \A k \in DOMAIN doc[i].props : ~TypeFree(doc[i].props[k])
 
 FieldOf(p) == [name |-> p.title, key |-> p.key, tag |-> p.name, types |-> GoTypes(p), free |-> TypeFree(p)]
-StructOf(o) == [name |-> o.title, key |-> o.key, fields |-> {FieldOf(p) : p \in Range(o.props)}]
+StructOf(o) == [obj |-> o.name, name |-> o.title, key |-> o.key, fields |-> {FieldOf(p) : p \in Range(o.props)}]
 
 \* Gen: one struct per non-ignored object, one JSON-tagged field per property
-Gen(doc, args) == {StructOf(o) : o \in {x \in Range(doc) : ~Ignored(x, args)}}
+Gen(doc, args) == {StructOf(doc[i]) : i \in Live(doc, args)}
+
+\* some map of the document holds two names equal up to capitalisation: exactly then the
+\* key rule above falls back to the title-cased identifier
+CaseVariants(doc) ==
+    \/ \E i \in DOMAIN doc : doc[i].key = doc[i].title
+    \/ \E i \in DOMAIN doc : \E k \in DOMAIN doc[i].props : doc[i].props[k].key = doc[i].props[k].title
 
 \* document shape class (part of a violation signature): "multi" = some map of the document
-\* has at least two entries, so that an iteration order exists
+\* has at least two entries, so that an iteration order exists; "multi_casevariant" = and two
+\* of its names differ in capitalisation only (an order that ignores case is not total there)
 Shape(doc) ==
     IF Len(doc) = 0 THEN "empty"
     ELSE IF Len(doc) = 1 /\ Len(doc[1].props) <= 1 THEN "single"
+    ELSE IF CaseVariants(doc) THEN "multi_casevariant"
     ELSE "multi"
 
 \* ------------------------------------------------------------------ the statement, declaratively
 \* (over an observed output; TLC checks on the model that the operational Gen / Emitted
-\* and this reading agree)
-FieldsMeet(o, s) ==
-    /\ \A k \in DOMAIN o.props :
-          LET p == o.props[k]
-              hits == {m \in DOMAIN s.fields : s.fields[m].key = p.key}
-          IN /\ Cardinality(hits) = 1
-             /\ \A m \in hits : /\ s.fields[m].tag = p.name
-                                /\ (TypeFree(p) \/ s.fields[m].type \in GoTypes(p))
-    /\ \A m \in DOMAIN s.fields : \E k \in DOMAIN o.props : o.props[k].key = s.fields[m].key
+\* and this reading agree).  Objects and structs (properties and fields) with one key are
+\* matched one to one.
+FieldOK(p, f) == f.tag = p.name /\ (TypeFree(p) \/ f.type \in GoTypes(p))
+PropsAt(o, K) == {k \in DOMAIN o.props : o.props[k].key = K}
+FieldsAt(s, K) == {m \in DOMAIN s.fields : s.fields[m].key = K}
+FieldKeys(o, s) == {o.props[k].key : k \in DOMAIN o.props} \cup {s.fields[m].key : m \in DOMAIN s.fields}
 
+GroupMeets(o, s, K) ==
+    /\ Cardinality(PropsAt(o, K)) = Cardinality(FieldsAt(s, K))
+    /\ \E f \in Inj(PropsAt(o, K), FieldsAt(s, K)) : \A k \in PropsAt(o, K) : FieldOK(o.props[k], s.fields[f[k]])
+
+\* one JSON-tagged, rightly typed field per property and no other field
+FieldsMeet(o, s) == \A K \in FieldKeys(o, s) : GroupMeets(o, s, K)
+
+ObjsAt(doc, args, K) == {i \in Live(doc, args) : doc[i].key = K}
+StructsAt(out, K) == {j \in DOMAIN out : out[j].key = K}
+StructKeys(doc, args, out) == {doc[i].key : i \in Live(doc, args)} \cup {out[j].key : j \in DOMAIN out}
+
+\* exactly one struct per non-ignored object (and none besides)
 Meets(doc, args, out) ==
-    /\ \A i \in DOMAIN doc :
-          LET hits == {j \in DOMAIN out : out[j].key = doc[i].key}
-          IN IF Ignored(doc[i], args) THEN hits = {}
-             ELSE Cardinality(hits) = 1 /\ \A j \in hits : FieldsMeet(doc[i], out[j])
-    /\ \A j \in DOMAIN out : \E i \in DOMAIN doc : doc[i].key = out[j].key
+    \A K \in StructKeys(doc, args, out) :
+        /\ Cardinality(ObjsAt(doc, args, K)) = Cardinality(StructsAt(out, K))
+        /\ \E f \in Inj(ObjsAt(doc, args, K), StructsAt(out, K)) :
+              \A i \in ObjsAt(doc, args, K) : FieldsMeet(doc[i], out[f[i]])
 
 \* ------------------------------------------------------------------ diagnosis (violation class)
 \* first failing clause of Meets, as the class field of the violation signature
 FieldVerdict(o, s) ==
-    LET P == DOMAIN o.props
-        F == DOMAIN s.fields
-        Hits(k) == {m \in F : s.fields[m].key = o.props[k].key}
-    IN IF \E k \in P : Hits(k) = {} THEN "missing_field"
-       ELSE IF \E m \in F : \A k \in P : o.props[k].key # s.fields[m].key THEN "extra_field"
-       ELSE IF \E k \in P : Cardinality(Hits(k)) > 1 THEN "duplicate_field"
-       ELSE IF \E k \in P : \E m \in Hits(k) : s.fields[m].tag # o.props[k].name THEN "wrong_tag"
-       ELSE IF \E k \in P : \E m \in Hits(k) :
-                   ~TypeFree(o.props[k]) /\ s.fields[m].type \notin GoTypes(o.props[k]) THEN "wrong_field_type"
-       ELSE "ok"
+    LET KS == FieldKeys(o, s)
+        P(K) == PropsAt(o, K)
+        F(K) == FieldsAt(s, K)
+        bad == {K \in KS : Cardinality(P(K)) = Cardinality(F(K)) /\ ~GroupMeets(o, s, K)}
+    IN IF \E K \in KS : Cardinality(F(K)) < Cardinality(P(K)) THEN "missing_field"
+       ELSE IF \E K \in KS : P(K) = {} THEN "extra_field"
+       ELSE IF \E K \in KS : Cardinality(F(K)) > Cardinality(P(K)) THEN "duplicate_field"
+       ELSE IF bad = {} THEN "ok"
+       ELSE IF \E K \in bad : \A f \in Inj(P(K), F(K)) : \E k \in P(K) : s.fields[f[k]].tag # o.props[k].name
+            THEN "wrong_tag"
+       ELSE "wrong_field_type"
 
 Verdict(doc, args, out) ==
-    LET D == DOMAIN doc
-        O == DOMAIN out
-        Hits(i) == {j \in O : out[j].key = doc[i].key}
-        Live == {i \in D : ~Ignored(doc[i], args)}
-        bad == {i \in Live : Cardinality(Hits(i)) = 1 /\ \E j \in Hits(i) : FieldVerdict(doc[i], out[j]) # "ok"}
-    IN IF \E i \in Live : Hits(i) = {} THEN "missing_struct"
-       ELSE IF \E i \in D \ Live : Hits(i) # {} THEN "ignored_struct_emitted"
-       ELSE IF \E j \in O : \A i \in D : doc[i].key # out[j].key THEN "extra_struct"
-       ELSE IF \E i \in Live : Cardinality(Hits(i)) > 1 THEN "duplicate_struct"
+    LET KS == StructKeys(doc, args, out)
+        L(K) == ObjsAt(doc, args, K)
+        O(K) == StructsAt(out, K)
+        IgnKeys == {doc[i].key : i \in (DOMAIN doc) \ Live(doc, args)}
+        over == {K \in KS : Cardinality(O(K)) > Cardinality(L(K))}
+        \* objects for which no struct of their key has the right fields
+        bad == {i \in Live(doc, args) : \A j \in O(doc[i].key) : ~FieldsMeet(doc[i], out[j])}
+        unmatched == {K \in KS : Cardinality(O(K)) = Cardinality(L(K)) /\
+                        ~\E f \in Inj(L(K), O(K)) : \A i \in L(K) : FieldsMeet(doc[i], out[f[i]])}
+    IN IF \E K \in KS : Cardinality(O(K)) < Cardinality(L(K)) THEN "missing_struct"
+       ELSE IF over \cap IgnKeys # {} THEN "ignored_struct_emitted"
+       ELSE IF \E K \in over : L(K) = {} THEN "extra_struct"
+       ELSE IF over # {} THEN "duplicate_struct"
        ELSE IF bad # {} THEN LET i == CHOOSE x \in bad : \A y \in bad : x <= y
-                                 j == CHOOSE x \in Hits(i) : TRUE
+                                 j == CHOOSE x \in O(doc[i].key) : \A y \in O(doc[i].key) : x <= y
                              IN FieldVerdict(doc[i], out[j])
+       ELSE IF unmatched # {} THEN "wrong_field_type"   \* structs of one key with their fields swapped
        ELSE "ok"
 
 \* detail of a wrong_field_type verdict: the type ID of the (first) offending property
 WrongTypeOf(doc, args, out) ==
     LET Off(i) == {k \in DOMAIN doc[i].props :
                     /\ ~Ignored(doc[i], args) /\ ~TypeFree(doc[i].props[k])
-                    /\ \E j \in DOMAIN out : out[j].key = doc[i].key /\
+                    /\ \A j \in StructsAt(out, doc[i].key) :
                           \E m \in DOMAIN out[j].fields :
                               /\ out[j].fields[m].key = doc[i].props[k].key
-                              /\ out[j].fields[m].type \notin GoTypes(doc[i].props[k])}
+                              /\ out[j].fields[m].tag = doc[i].props[k].name
+                              /\ out[j].fields[m].type \notin GoTypes(doc[i].props[k])
+                    /\ StructsAt(out, doc[i].key) # {}}
         cand == UNION {{<<i, k>> : k \in Off(i)} : i \in DOMAIN doc}
     IN IF cand = {} THEN "" ELSE LET c == CHOOSE x \in cand : TRUE IN doc[c[1]].props[c[2]].tid
 
 \* the statement does not fix the spelling of struct / field names; a matched struct or field
 \* whose name is not the title-cased identifier is reported as drift, not as a violation
 NameDrift(doc, out) ==
-    \E i \in DOMAIN doc : \E j \in DOMAIN out :
-        /\ out[j].key = doc[i].key
-        /\ \/ out[j].name # doc[i].title
-           \/ \E k \in DOMAIN doc[i].props : \E m \in DOMAIN out[j].fields :
-                  out[j].fields[m].key = doc[i].props[k].key /\ out[j].fields[m].name # doc[i].props[k].title
+    \E j \in DOMAIN out :
+        LET objs == {i \in DOMAIN doc : doc[i].key = out[j].key} IN
+        /\ objs # {}
+        /\ \/ out[j].name \notin {doc[i].title : i \in objs}
+           \/ \A i \in objs : \E m \in DOMAIN out[j].fields :
+                 LET ps == PropsAt(doc[i], out[j].fields[m].key) IN
+                 ps # {} /\ out[j].fields[m].name \notin {doc[i].props[k].title : k \in ps}
+
+\* two type declarations (or two fields of one struct) with the same name: parses, is
+\* gofmt-valid, does not compile; the statement does not speak about it -> drift
+DuplicateNames(out) ==
+    \/ \E i, j \in DOMAIN out : i # j /\ out[i].name = out[j].name
+    \/ \E j \in DOMAIN out : \E m, n \in DOMAIN out[j].fields :
+          m # n /\ out[j].fields[m].name = out[j].fields[n].name
 
 \* ------------------------------------------------------------------ a generator meeting the contract
 \* Emitted: the output of a generator that visits the non-ignored objects in the order perm
@@ -181,17 +225,13 @@ Emitted(doc, perm, rev, titled) ==
                 LET p == o.props[IF rev THEN n + 1 - m ELSE m]
                 IN [name |-> p.title, key |-> p.key, tag |-> p.name, type |-> TypeText(p, titled)]]]]
 
-Abs(out) == {[name |-> out[j].name, key |-> out[j].key,
-              fields |-> {[name |-> f.name, key |-> f.key, tag |-> f.tag, type |-> f.type] :
-                          f \in Range(out[j].fields)}] : j \in DOMAIN out}
-
-\* the output (forgetting order) is one of the structs Gen allows, for each of them
-AbsInGen(doc, args, out) ==
-    /\ Cardinality(Abs(out)) = Cardinality(Gen(doc, args))
-    /\ \A s \in Abs(out) : \E g \in Gen(doc, args) :
-          /\ g.name = s.name /\ g.key = s.key
-          /\ Cardinality(s.fields) = Cardinality(g.fields)
-          /\ \A f \in s.fields : \E gf \in g.fields :
+\* every emitted struct is one of the structs Gen allows, and there are as many
+InGen(doc, args, out) ==
+    /\ Len(out) = Cardinality(Gen(doc, args))
+    /\ \A j \in DOMAIN out : \E g \in Gen(doc, args) :
+          /\ g.name = out[j].name /\ g.key = out[j].key
+          /\ Len(out[j].fields) = Cardinality(g.fields)
+          /\ \A f \in Range(out[j].fields) : \E gf \in g.fields :
                 gf.name = f.name /\ gf.key = f.key /\ gf.tag = f.tag /\ (gf.free \/ f.type \in gf.types)
 
 \* ------------------------------------------------------------------ Observe: histories
@@ -203,13 +243,13 @@ Observed(seen, inp) == inp \in DOMAIN seen
 ObsAccepts(seen, inp, obs) == Observed(seen, inp) => seen[inp] = obs
 ObsRecord(seen, inp, obs) == IF Observed(seen, inp) THEN seen ELSE (inp :> obs) @@ seen
 
-StructNames(out) == [j \in DOMAIN out |-> out[j].name]
-FieldNames(s) == [m \in DOMAIN s.fields |-> s.fields[m].name]
-\* what differs between two observations of one input (detail field of the signature)
-StructOrderDiffers(a, b) == StructNames(a) # StructNames(b) /\ Range(StructNames(a)) = Range(StructNames(b))
+\* what differs between two observations of one input (detail field of the signature); structs
+\* are told apart by name and field tags, fields by their tag (names may coincide: foo / Foo)
+FieldTags(s) == [m \in DOMAIN s.fields |-> s.fields[m].tag]
+StructIds(out) == [j \in DOMAIN out |-> <<out[j].name, Range(FieldTags(out[j]))>>]
+StructOrderDiffers(a, b) == StructIds(a) # StructIds(b) /\ Range(StructIds(a)) = Range(StructIds(b))
 FieldOrderDiffers(a, b) ==
     \E i \in DOMAIN a : \E j \in DOMAIN b :
-        /\ a[i].name = b[j].name
-        /\ FieldNames(a[i]) # FieldNames(b[j])
-        /\ Range(FieldNames(a[i])) = Range(FieldNames(b[j]))
+        /\ StructIds(a)[i] = StructIds(b)[j]
+        /\ FieldTags(a[i]) # FieldTags(b[j])
 =============================================================================
